@@ -24,7 +24,9 @@ CHECKS = {
         "decoded against the home squares. Decides the per-step data movement for all inputs of each abstract case; it does not decide "
         "that every concrete semilegal move falls into its case's pre-state (that is C06/C02's semilegality invariant). ADDED: "
         "update_castling is tabulated - its model evaluated on all 4,096 (side to move, rights value, set of changed home squares +/- an "
-        "unrelated square) points removes exactly the rights whose king or rook home square changed, whatever the shape of its guards.",
+        "unrelated square) points removes exactly the rights whose king or rook home square changed, whatever the shape of its guards. ADDED 2: the "
+        "incremental hash-and-sets component is re-run here (A5h/A5o): the position a move produces includes the stored hash and the "
+        "occupancy sets the generators and attack queries read.",
    note=TB + "Assumes the pre-state of each abstract case (source holds mv.src_cell, castling squares hold king/rook/empty, en-passant victim behind dst)."),
  "C04": dict(cat="other", ref="DESIGN.md §3 C04",
    technique="abstract interpretation of do_unmake_move on the abstract post-state; memory-version check of the undo record; path rules on Make impls; null-move corner cases",
@@ -47,7 +49,7 @@ CHECKS = {
         "returned plus one repetition entry, every refused path records nothing; pop's Some-path pops, un-counts, clears the outcome and "
         "unmakes the live board with the popped pair in that order, its None-path mutates nothing; each chain field has a frozen set of "
         "writers; equality reads start, length, every move, outcome. Decides the recording discipline on all paths; 'current position = "
-        "replay' then follows from C03/C04 and is not established separately. ADDED: the undo that pop and a refused push rely on is exact - do_unmake_move interpreted on the abstract post-state of every kind and colour restores squares, every occupancy set and all scalar fields (rule shared with C04), so the live board equals the replay also in the sets Board's == does not compare.",
+        "replay' then follows from C03/C04 and is not established separately. ADDED: the undo that pop and a refused push rely on is exact - do_unmake_move interpreted on the abstract post-state of every kind and colour restores squares, every occupancy set and all scalar fields (rule shared with C04), so the live board equals the replay also in the sets Board's == does not compare. ADDED 2: the undo record itself is re-checked here (H7k/H7u): the hash comes back from the record, so it must hold the value read before the move touched it.",
    note=TB + "Make::make_raw implementations are treated as opaque here (their own discipline is C02/C04)."),
  "C14": dict(cat="other", ref="DESIGN.md §3 C14",
    technique="exhaustive tabulation of Outcome::passes/is_force by constant folding; abstract-input path classification of calc_outcome; key-table distinctness",
@@ -77,7 +79,7 @@ CHECKS = {
    text="Static: do_is_cell_attacked, do_cell_attackers (both colours) and Checker::is_attacked (both attacker colours) are reduced to "
         "sets of AND-ed factors and must equal the five reference terms (piece set x attack set, pawn table colour inverted, sliders with "
         "matching geometry), boolean forms true iff a term is non-empty; near-attack tables equal geometry; dispatch and check queries use "
-        "the right king and attacker colour. With C15 this is the whole structural content; the reverse-lookup lemma itself is assumed. ADDED: the magic lookups the queries use are exact on every subset of every mask (C15's T2/T3 re-run). ADDED: pinned() is tabulated - its model evaluated on 1,700 boards of a structured family (single pins, shields, wrong geometry, simultaneous pins) returns exactly the own men alone between the king and a slider of the line's geometry.",
+        "the right king and attacker colour. With C15 this is the whole structural content; the reverse-lookup lemma itself is assumed. ADDED: the magic lookups the queries use are exact on every subset of every mask (C15's T2/T3 re-run). ADDED: pinned() is tabulated - its model evaluated on 1,700 boards of a structured family (single pins, shields, wrong geometry, simultaneous pins) returns exactly the own men alone between the king and a slider of the line's geometry. ADDED 2: the incremental hash-and-sets component is re-run here (Q6h/Q6o): the queries read the occupancy sets, so the sets must follow the squares in every make and unmake arm.",
    note=TB + "Reverse-lookup lemma of chess geometry assumed; occupancy sets assumed consistent (C05)."),
  "C06": dict(cat="other", ref="DESIGN.md §3 C06",
    technique="exhaustive tabulation of is_well_formed by constant propagation over 10x13x64x64 tuples; emitter-set and condition-set comparison of generator vs validator; abstract-board tabulation of the validator; per-site set-algebra evaluation of the generator",
@@ -141,7 +143,7 @@ CHECKS = {
    text="Static, premises only: Black's geometry constants are mirrors of White's and anchored to the rules (CTFE witness); pawn attack "
         "tables are rank mirrors and all near tables file-symmetric; pawns::advance_* tabulated mirror-consistent; every colour dispatcher "
         "pairs colours with matching instances; every run-time colour branch in position logic is a checked pair or reviewed; DIAG/ANTIDIAG "
-        "are indexed by their own numbering function. Symmetry of outcomes is not decided beyond C07's rules. ADDED: generator and validator of both colour instances equal one reference that is symmetric under both mirrors (rules shared with C06), which decides the symmetry of semilegal move sets; outcomes and legal filtering are symmetric as far as C01/C07's rules go. ADDED 2: the legality filter over the semilegal moves is the symmetric reference too (pinned set by the set formula over all pinners, pin shortcut, after-move king test: C01/N2-N4 re-run).",
+        "are indexed by their own numbering function. Symmetry of outcomes is not decided beyond C07's rules. ADDED: generator and validator of both colour instances equal one reference that is symmetric under both mirrors (rules shared with C06), which decides the symmetry of semilegal move sets; outcomes and legal filtering are symmetric as far as C01/C07's rules go. ADDED 2: the legality filter over the semilegal moves is the symmetric reference too (pinned set by the set formula over all pinners, pin shortcut, after-move king test: C01/N2-N4 re-run). ADDED 3: calc_outcome and is_insufficient_material are re-checked here (Y8o/Y8 = C07/O1, O2): both mirrors exchange the square colours, so the material rule must treat them alike.",
    note=TB + "Reviewed list of 19 colour-branching functions in rules/symrules.py, one reason each."),
  "C20": dict(cat="other", ref="DESIGN.md §3 C20",
    technique="compile-time witness crate (rustc const evaluation, exhaustive loops) + constant-folding tabulation of char tables, operators, Coord::shift; abstract interpretation for totality; compile-fail witnesses",
